@@ -187,6 +187,7 @@ def sweep(prop, tier, seed, jobs, scratch):
     violators = {}
     harness_notes = []
     samples = []
+    inconclusive_notes = []
     exec_samples = []
     deadline = t_start + budget
 
@@ -198,6 +199,7 @@ def sweep(prop, tier, seed, jobs, scratch):
         harness_notes.append((v.key, v.note))
         return
       if v.status != 'ok':
+        inconclusive_notes.append((v.key, v.note))
         return
       res = v.result
       agg['steps'] += res['steps']
@@ -229,6 +231,8 @@ def sweep(prop, tier, seed, jobs, scratch):
         % (agg['runs'], agg['ok'], agg['inconclusive'], agg['harness_error'], agg['steps'],
            agg['obligations'], sweep_wall))
 
+    for key, note in inconclusive_notes[:5]:
+      log('inconclusive run %s: %s' % (key, note))
     # ---- violations: classify, known findings, minimise, replay
     exit_code = 0
     reported = 0
@@ -366,6 +370,7 @@ def sweep(prop, tier, seed, jobs, scratch):
             'distinct_operation_outcome_sequences': len(agg['sigs']),
             'distinct_states': len(agg['states']),
             'inconclusive_runs': agg['inconclusive'],
+            'inconclusive_notes': [n for _, n in inconclusive_notes[:5]],
             'harness_errors': agg['harness_error'],
             'determinism_sample': {'runs_executed_twice': det_compared,
                                    'log_digest_mismatches': len(det_mismatch)},
